@@ -75,10 +75,10 @@ theorem arith_neutralTail {ch : Bool} {op : BinOp} {l r : Arg} {c : Bool} {a' : 
       obtain ⟨_, rfl⟩ := he
       exact arith_neutralMain isReg h
 
-theorem arith_neutralizeRaw {op : BinOp} {l r : Arg} {c : Bool} {a' : Arg}
-    (he : neutralizeRaw (.bin op l r) = .ok (c, a')) (h : arith isReg a' = true) :
+theorem arith_neutralizeBin {op : BinOp} {l r : Arg} {c : Bool} {a' : Arg}
+    (he : neutralizeBin op l r = .ok (c, a')) (h : arith isReg a' = true) :
     arith isReg l = true ∧ arith isReg r = true := by
-  simp only [neutralizeRaw] at he
+  simp only [neutralizeBin] at he
   split at he
   · cases hn : normAddSub (decide (op = .sub)) r with
     | ok p =>
@@ -89,6 +89,30 @@ theorem arith_neutralizeRaw {op : BinOp} {l r : Arg} {c : Bool} {a' : Arg}
     | err e => simp [hn] at he
     | panic => simp [hn] at he
   · exact arith_neutralTail isReg he h
+
+theorem arith_neutralizeRaw {op : BinOp} {l r : Arg} {c : Bool} {a' : Arg}
+    (he : neutralizeRaw (.bin op l r) = .ok (c, a')) (h : arith isReg a' = true) :
+    arith isReg l = true ∧ arith isReg r = true := by
+  rcases neutralizeRaw_bin_cases op l r with h0 | ⟨x, y, rfl, rfl, rfl, h0⟩
+  · rw [h0] at he; exact arith_neutralizeBin isReg he h
+  · rw [h0] at he
+    obtain ⟨_, c', he'⟩ := swapped_ok he
+    have := arith_neutralizeBin isReg he' h
+    simp only [arith, Bool.and_eq_true]
+    exact ⟨trivial, this.2, this.1⟩
+
+theorem arith_neutralizeRaw_neg {v : Arg} {c : Bool} {a' : Arg}
+    (he : neutralizeRaw (.neg v) = .ok (c, a')) (h : arith isReg a' = true) : arith isReg v = true := by
+  rcases neutralizeRaw_neg_cases v with h0 | ⟨x, y, rfl, h0⟩
+  · rw [h0] at he
+    simp only [Res.ok.injEq, Prod.mk.injEq] at he
+    obtain ⟨_, rfl⟩ := he
+    simpa [arith] using h
+  · rw [h0] at he
+    obtain ⟨_, c', he'⟩ := swapped_ok he
+    have := arith_neutralizeBin isReg he' h
+    simp only [arith, Bool.and_eq_true]
+    exact ⟨this.2, this.1⟩
 
 theorem arith_neutralize : ∀ a (c : Bool) (a' : Arg), neutralize a = .ok (c, a') → arith isReg a' = true →
     arith isReg a = true := by
@@ -128,10 +152,16 @@ theorem arith_neutralize : ∀ a (c : Bool) (a' : Arg), neutralize a = .ok (c, a
     | err e => simp [h1] at he
     | ok p =>
       obtain ⟨c1, v'⟩ := p
-      simp only [h1, Res.ok.injEq, Prod.mk.injEq] at he
-      obtain ⟨_, rfl⟩ := he
-      simp only [arith] at h ⊢
-      exact ih _ _ h1 h
+      simp only [h1] at he
+      cases h3 : neutralizeRaw (.neg v') with
+      | panic => simp [h3] at he
+      | err e => simp [h3] at he
+      | ok w =>
+        obtain ⟨c3, a3⟩ := w
+        simp only [h3, Res.ok.injEq, Prod.mk.injEq] at he
+        obtain ⟨_, rfl⟩ := he
+        simp only [arith]
+        exact ih _ _ h1 (arith_neutralizeRaw_neg isReg h3 h)
   case not =>
     intro a ih c a' he h
     simp only [neutralize] at he
